@@ -37,6 +37,10 @@ var faultKinds = map[string][]string{
 	"api.status-patch":  {"err", "err-after"},
 }
 
+// kind-specific API sites: their counters only advance on calls for that kind, so a planned fault
+// can land on, say, the collection loop's 40th look at a pod
+var kindSites = []string{"api.get.Pod", "api.get.PodENI", "api.get.Node", "api.list.PodENIList", "api.status-update.PodENI", "api.update.PodENI", "api.status-patch.PodENI", "api.delete.PodENI", "api.create.PodENI"}
+
 var faultSites = []string{"cloud.create", "cloud.attach", "cloud.detach", "cloud.delete", "cloud.wait", "cloud.describe", "cloud.vsw",
 	"api.get", "api.list", "api.create", "api.update", "api.delete", "api.patch", "api.status-update", "api.status-patch"}
 
@@ -45,6 +49,7 @@ func generate(rng *rand.Rand, prop, tier string) *Scenario {
 	sc := &Scenario{Profile: prop}
 	c := &sc.Cfg
 	c.Trunk = rng.IntN(3) != 0
+	c.CacheLagMs = oneOf(rng, 0, 0, 100, 1000, 5000)
 	c.Stack = pickW(rng, []string{"v4", "dual"}, []int{70, 30})
 	npods := 1 + rng.IntN(4)
 	kinds, kw := []string{"elastic", "ttl", "never", "mixed", "two"}, []int{45, 25, 10, 8, 12}
@@ -115,6 +120,26 @@ func generate(rng *rand.Rand, prop, tier string) *Scenario {
 			}
 		}
 	}
+	if !sc.Strict {
+		for _, site := range kindSites {
+			if rng.IntN(3) != 0 {
+				continue
+			}
+			gen := site[:len(site)-len(site[lastDot(site):])]
+			for k := 0; k < 1+rng.IntN(4); k++ {
+				sc.Faults = append(sc.Faults, PlannedFault{Site: site, Nth: rng.IntN(80), Kind: oneOf(rng, faultKinds[gen]...)})
+			}
+		}
+	}
 	sc.SettleS = oneOf(rng, 1500, 2400, 3000)
 	return sc
+}
+
+func lastDot(s string) int {
+	for i := len(s) - 1; i >= 0; i-- {
+		if s[i] == '.' {
+			return i
+		}
+	}
+	return len(s)
 }
